@@ -293,12 +293,11 @@ func (db *DB) Delete(key []byte) error {
 func (db *DB) ListKeys() [][]byte {
 	iterator := db.index.Iterator(false)
 	defer iterator.Close()
-	keys := make([][]byte, db.index.Size())
-	var idx int
+	// 结果长度以迭代器快照为准, 不应再次读取索引大小 (期间索引可能已发生变化)
+	keys := make([][]byte, 0)
 	// 直接通过迭代器遍历获取所有 key
 	for iterator.Rewind(); iterator.Valid(); iterator.Next() {
-		keys[idx] = iterator.Key()
-		idx++
+		keys = append(keys, iterator.Key())
 	}
 	return keys
 }
